@@ -19,6 +19,9 @@ pub struct Template {
     /// accounts other than the sender whose nonce this transaction bumps when valid (EIP-7702
     /// authorities), so that later templates can compute authorisation nonces
     pub bumps: Vec<Address>,
+    /// the sender's nonce is computed from its own earlier transactions only, ignoring nonce bumps
+    /// caused by authorisations (a transaction that would have been valid without them)
+    pub stale_nonce: bool,
     /// (sender nonce, nonce-of-any-account) -> transaction
     pub build: Arc<dyn Fn(u64, &dyn Fn(Address) -> u64) -> TxEnv + Send + Sync>,
 }
@@ -36,6 +39,7 @@ pub fn tpl(
         min_spec: SpecId::FRONTIER,
         nonce_skew: 0,
         bumps: vec![],
+        stale_nonce: false,
         build: Arc::new(move |n, _| build(n)),
     }
 }
@@ -48,7 +52,7 @@ pub fn tpl_auth(
     bumps: Vec<Address>,
     build: impl Fn(u64, &dyn Fn(Address) -> u64) -> TxEnv + Send + Sync + 'static,
 ) -> Template {
-    Template { label, sender, tags, min_spec: SpecId::PRAGUE, nonce_skew: 0, bumps, build: Arc::new(build) }
+    Template { label, sender, tags, min_spec: SpecId::PRAGUE, nonce_skew: 0, bumps, stale_nonce: false, build: Arc::new(build) }
 }
 
 impl Template {
@@ -58,6 +62,10 @@ impl Template {
     }
     pub fn skew(mut self, k: i64) -> Self {
         self.nonce_skew = k;
+        self
+    }
+    pub fn stale(mut self) -> Self {
+        self.stale_nonce = true;
         self
     }
 }
@@ -104,6 +112,7 @@ pub fn build_case(
     seq: &[usize],
 ) -> Option<Case> {
     let mut used: BTreeMap<Address, u64> = BTreeMap::new();
+    let mut sent: BTreeMap<Address, u64> = BTreeMap::new();
     let mut txs = Vec::new();
     for &t in seq {
         let tp = &templates[t];
@@ -112,8 +121,10 @@ pub fn build_case(
         }
         let base = db.accounts.get(&tp.sender).map_or(0, |a| a.info.nonce);
         let k = used.entry(tp.sender).or_insert(0);
-        let nonce = base.wrapping_add(*k).wrapping_add_signed(tp.nonce_skew);
+        let own = sent.entry(tp.sender).or_insert(0);
+        let nonce = base.wrapping_add(if tp.stale_nonce { *own } else { *k }).wrapping_add_signed(tp.nonce_skew);
         *k += 1;
+        *own += 1;
         let mut tx = {
             let used_ref = &used;
             let nonce_of = move |a: Address| -> u64 {
